@@ -69,6 +69,28 @@ def _who_calls(prog, g):
     return out
 
 
+def _independent_call(prog, w, g):
+    """every call of g in w is dominated by `lca(X, Y) != X` and `lca(X, Y) != Y` for the vtree indices X, Y of two operands,
+    and the operand passed as prime is the one `is_prime_index(X, Y)` selects: the contract and_indep itself is called under"""
+    te = w.terms
+    sites = [cs for cs in te.calls if cs.callee.name == g.name.split("::")[-1] and g in prog.resolve(cs.callee)]
+    if not sites:
+        return False
+    for cs in sites:
+        ne = []
+        for c, val, _, _ in te.facts_at(cs.bb):
+            c0 = strip(c)
+            if c0[0] == "bin" and c0[1] in ("Ne", "Eq") and mir.is_call(strip(c0[2]), "lca") and ((c0[1] == "Ne") == (val != "0")):
+                l = strip(c0[2])
+                if strip(c0[3]) in [strip(a) for a in l[2][1:]]:
+                    ne.append(strip(c0[3]))
+        if len(set(map(repr, ne))) < 2:
+            return False
+        if "is_prime_index(" not in show(cs.args[1]) and not any(mir.is_call(strip(c), "is_prime_index") for c, _v, _a, _b in te.facts_at(cs.bb)):
+            return False
+    return True
+
+
 def _root(f):
     """the function a closure belongs to"""
     return f.npath.split("::{closure")[0].split("::")[-1]
@@ -106,6 +128,9 @@ def run(prog):
                     for w in ws:
                         if _root(w) in allowed:
                             chain.append(_root(w))
+                        elif tname == "sdd-node" and any(_root(w2) == "and_indep" for w2 in ws) and _independent_call(prog, w, g):
+                            # the independent-operands constructor, called under its own precondition
+                            chain.append(_root(w) + " (under the independence test)")
                         else:
                             nxt.append(w)
                 frontier = nxt
